@@ -61,6 +61,7 @@ package requestreply
 //@   assert @call:p.config.Publisher.Publish: notificationMsg != nil && has(notificationMsg.Metadata, OperationIDMetadataKey) && notificationMsg.Metadata[OperationIDMetadataKey] == params.CommandMessage.Metadata[OperationIDMetadataKey] && notificationMsg.Metadata[OperationIDMetadataKey] != "" [the-reply-carries-the-operation-id-of-its-command]
 
 //@ func (PubSubBackend[Result]).ListenForNotifications$1
+//@   escapable *
 //@   ghost owns replyChan
 //@   ghost recv-nonnil notifyMsgs
 //@   requires ctx != nil && replyChan != nil && !closed(replyChan) && cancel != nil && p.marshaler != nil
